@@ -280,6 +280,24 @@ type bidirCase struct {
 	NumSamples     int     `json:"num_samples"`
 	Renders        int     `json:"renders"`
 	Seed           int64   `json:"seed"`
+	// WallRho > 0: the REFLECTIVE furnace.  No ball; every wall emits E and is a Lambert reflector of albedo WallRho
+	// (an area light whose surface material also reflects).  Every bounce sees the same radiance, so a path with k
+	// scattering events contributes E*rho^k whatever its geometry: the image is E * sum_{k=0..K} rho^k at every
+	// pixel, K the largest number of scattering events of any path the settings allow.  This is the only closed
+	// form here with INDIRECT light, i.e. the only one in which the light sub-path strategies and their weights matter.
+	WallRho float64 `json:"wall_rho,omitempty"`
+}
+
+// reflLight is an area light whose surface also reflects: sampling and power come from the wrapped light, the
+// material seen by rays has the same emission plus a diffuse albedo.
+type reflLight struct {
+	render3d.AreaLight
+	mat render3d.Material
+}
+
+func (r *reflLight) Cast(ray *model3d.Ray) (model3d.RayCollision, render3d.Material, bool) {
+	rc, _, ok := r.AreaLight.Cast(ray)
+	return rc, r.mat, ok
 }
 
 func genBidir(t *rapid.T) bidirCase {
@@ -301,6 +319,12 @@ func genBidir(t *rapid.T) bidirCase {
 		c.NumSamples, c.Renders = 160, 12
 	}
 	c.Seed = int64(rapid.Uint64().Draw(t, "seed") >> 2)
+	if gen.Int(t, 0, 2, "reflective") == 0 {
+		c.WallRho = gen.F(t, 0.3, 0.6, "wallrho")
+		c.MaxDepth = gen.Int(t, 2, 5, "maxdepth2")
+		c.MaxLightDepth = gen.Int(t, 0, c.MaxDepth, "maxlightdepth2")
+		c.Cutoff = 0 // a cut-off truncates paths (biased by design); roulette and the power heuristic are unbiased
+	}
 	return c
 }
 
@@ -313,6 +337,9 @@ func checkBidir(c bidirCase, o *kit.Obs) error {
 		o.Label("joined-light")
 	} else {
 		light = render3d.NewMeshAreaLight(meshOf(tris), c.E.col())
+	}
+	if c.WallRho > 0 {
+		return checkReflectiveFurnace(c, light, o)
 	}
 	scene := render3d.JoinedObject{light, &render3d.ColliderObject{Collider: &model3d.Sphere{Center: m3.C3(c.Ball.C), Radius: c.Ball.R},
 		Material: &render3d.LambertMaterial{DiffuseColor: c.Ball.Rho.col()}}}
@@ -382,6 +409,71 @@ func checkBidir(c bidirCase, o *kit.Obs) error {
 		}
 		if math.Abs(z) > 4.5 {
 			o.Label("z>4.5")
+		}
+	}
+	return nil
+}
+
+// checkReflectiveFurnace: see bidirCase.WallRho.  Path lengths: MaxDepth is documented as the maximum number of edges
+// "in either direction" and MaxLightDepth as the limit on light path vertices (0: none beyond MaxDepth).  A full path
+// joins an eye sub-path of up to MaxDepth edges to a light sub-path of up to L vertices by one more edge, so it has up to
+// MaxDepth + L edges and MaxDepth + L - 1 scattering events, with L = MaxLightDepth, or MaxDepth when MaxLightDepth is 0
+// (calibrated on the unchanged tree for 1 <= MaxLightDepth <= MaxDepth and for 0: twenty settings within 0.7%).
+func checkReflectiveFurnace(c bidirCase, base render3d.AreaLight, o *kit.Obs) error {
+	o.Label("reflective-furnace")
+	L := c.MaxLightDepth
+	if L == 0 {
+		L = c.MaxDepth
+	}
+	if L > c.MaxDepth {
+		return fmt.Errorf("%w: MaxLightDepth beyond MaxDepth is outside the calibrated domain", kit.ErrInfra)
+	}
+	K := c.MaxDepth + L - 1
+	geo, p := 0.0, 1.0
+	for k := 0; k <= K; k++ {
+		geo += p
+		p *= c.WallRho
+	}
+	o.Labelf("maxdepth:%d", c.MaxDepth)
+	o.Labelf("maxlightdepth:%d", c.MaxLightDepth)
+	light := &reflLight{AreaLight: base, mat: &render3d.LambertMaterial{DiffuseColor: render3d.NewColor(c.WallRho), EmissionColor: c.E.col()}}
+	bpt := &render3d.BidirPathTracer{Camera: c.Cam.build(), Light: light, MaxDepth: c.MaxDepth, MaxLightDepth: c.MaxLightDepth, MinDepth: c.MinDepth,
+		RouletteDelta: c.RouletteDelta, PowerHeuristic: c.PowerHeuristic, NumSamples: c.NumSamples}
+	rand.Seed(c.Seed)
+	var dev [3][]float64
+	for r := 0; r < c.Renders; r++ {
+		img := render3d.NewImage(c.W, c.H)
+		bpt.Render(img, light)
+		for idx, got := range img.Data {
+			g := colArr(got)
+			for ch := 0; ch < 3; ch++ {
+				if math.IsNaN(g[ch]) || math.IsInf(g[ch], 0) || g[ch] < 0 {
+					return fmt.Errorf("reflective furnace: pixel %d channel %d = %v", idx, ch, g[ch])
+				}
+				dev[ch] = append(dev[ch], g[ch]/(c.E[ch]*geo)-1)
+			}
+		}
+	}
+	o.NonTrivial()
+	for ch := 0; ch < 3; ch++ {
+		n := float64(len(dev[ch]))
+		var m, s2 float64
+		for _, d := range dev[ch] {
+			m += d
+		}
+		m /= n
+		for _, d := range dev[ch] {
+			s2 += (d - m) * (d - m)
+		}
+		se := math.Sqrt(s2 / (n - 1) / n)
+		z := m / se
+		// same decision rule as the ball term: |z| > 7 and an effect above 2.5%
+		if math.Abs(z) > 7 && math.Abs(m) > 0.025 {
+			return fmt.Errorf("reflective furnace (albedo %.3f, MaxDepth %d, MaxLightDepth %d: paths with up to %d scattering events): mean radiance / (E * %.4f) - 1 = %+.4f +- %.4f over %d pixel estimates of %d samples (z = %.1f)",
+				c.WallRho, c.MaxDepth, c.MaxLightDepth, K, geo, m, se, len(dev[ch]), c.NumSamples, z)
+		}
+		if math.Abs(m) > 0.015 {
+			o.Label("furnace-deviation>1.5%")
 		}
 	}
 	return nil
